@@ -75,6 +75,11 @@ def run_unit(unit, rlimit=None, timeout=600, extra=()):
         imports += new
     if imports:
         res["auto_imports"] = ["%s::%s" % x for x in imports]
+    if res["status"] == "undecided" and res["undecided"] and all(u.get("kind") in ("rlimit", "timeout") for u in res["undecided"]):
+        res2 = run_unit_once(unit, rlimit, timeout, tuple(extra) + ("--smt-option", "smt.random_seed=%d" % RESEED), tuple(imports))
+        if res2["status"] == "ok":
+            res2["reseed"] = {"seed": RESEED, "status": "ok", "note": "first run hit the resource limit; all obligations discharged under seed %d" % RESEED}
+            return res2
     # de-flaking: an obligation that really fails cannot be discharged under any solver seed, so a reported failure is
     # confirmed by a second run with another seed and only the obligations failing in BOTH runs are kept; an obligation that
     # fails once and verifies once is solver instability: undecided, never a violation
@@ -84,6 +89,12 @@ def run_unit(unit, rlimit=None, timeout=600, extra=()):
         both = [f for f in res["failures"] if (f["function"], f["message"], f["clause"]) in keys2]
         flaky = [f for f in res["failures"] if (f["function"], f["message"], f["clause"]) not in keys2]
         res["reseed"] = {"seed": RESEED, "status": res2["status"], "confirmed": len(both), "not_reproduced": len(flaky)}
+        if res2["status"] == "ok":
+            # a proof found under any seed is a proof: every obligation of the unit is discharged by the second run
+            res2["reseed"] = {"seed": RESEED, "status": "ok", "note": "first run (default seed) reported %d unstable failure(s); all obligations discharged under seed %d" % (len(res["failures"]), RESEED)}
+            if imports:
+                res2["auto_imports"] = res.get("auto_imports")
+            return res2
         if res2["status"] == "failed":
             res["failures"] = both
             for f in flaky:
